@@ -2,10 +2,16 @@
 //! macro expands to in a CALLING crate (built once with none of its own features and once with `alloc,std`).
 //! Deliberately imports NOTHING from rrtk: every name the expansion needs must come through `$crate`.
 #![allow(unused)]
-pub trait Tr {
+pub trait Base {
+    fn g(&self) -> i32 {
+        0
+    }
+}
+pub trait Tr: Base {
     fn f(&self) -> i32;
 }
 pub struct Foo(pub i32);
+impl Base for Foo {}
 impl Tr for Foo {
     fn f(&self) -> i32 {
         self.0
@@ -13,4 +19,9 @@ impl Tr for Foo {
 }
 pub fn conv(r: rrtk::Reference<Foo>) -> rrtk::Reference<dyn Tr> {
     rrtk::to_dyn!(Tr, r)
+}
+/// A second conversion step: the source is already a trait object (`Reference<dyn Tr>` to its supertrait), so everything the
+/// macro calls on it must exist for unsized targets too.
+pub fn conv_again(r: rrtk::Reference<dyn Tr>) -> rrtk::Reference<dyn Base> {
+    rrtk::to_dyn!(Base, r)
 }
